@@ -82,6 +82,7 @@ def run_case(case_id, pre_abs, msg_abs, seed, keep_xml=False):
     if style != "plain":
         f = id_style_map(style)
         pre_abs, msg_abs = restyle(pre_abs, f), restyle(msg_abs, f)
+        g.idf = f
     ro_xml = g.ro(pre_abs)
     msg_xml = g.msg(msg_abs)
     table = {}
